@@ -13,13 +13,17 @@ from sv.props import c01
 PROPERTY = "C02"
 GEN = ["Contingency"]
 PROPS = ["ScoresVerif/Props/C02.lean"]
-DRIVER_DEPS = ["ScoresVerif.Driver.C01"]
+DRIVER_DEPS = ["ScoresVerif.Driver.C01", "ScoresVerif.Driver.C13Spec", "ScoresVerif.Driver.C06", "ScoresVerif.Driver.C12"]
 LEVEL = "proof"
 TRUSTED = ["xarray mean/sum(skipna=True) and count as modelled by SV.nanmean / nansum / count (tied by the correspondence)"]
 ASSUMPTIONS = ["cases are laid out along one case dimension (plus the score-specific dims) for the mask-vs-delete relation",
                "FSS is excluded (documented exception: a NaN grid cell is a non-event; decided under C16)"]
 RULE = ("every registry function x NaN injected into forecast / observation / weights (each slot and mixed) x subsets of cases; "
-        "distinct = distinct (function, inputs, mask); non-trivial = at least one case survives")
+        "distinct = distinct (function, inputs, mask); non-trivial = at least one case survives; plus two directed classes: "
+        "ensemble scores (Brier, CRPS family) with cases whose members are ALL NaN beside a valid observation (and the reverse, "
+        "partial members, NaN weights), and risk_matrix_score with all-zero severity columns / probability rows in the decision "
+        "weights (hand-made or from weights_from_warning_scaling with two identical top severity columns) and a NaN in such a "
+        "category — expected per-case values from the Lean Specs of C13 / C06 / C12 on the exact values")
 MANIFEST = dict(
     level="proof",
     text="Lean theorems for lists of any length: masking cases by NaN equals deleting them for the NaN-skipping mean, sum and "
@@ -27,7 +31,9 @@ MANIFEST = dict(
          "regenerated from the source give NaN (never hit/miss/non-event) for a NaN input and partition valid pairs. Every "
          "public score is tied to that reduction model (Lean nan-mean of its own preserve_dims='all' output, C01 sweep with NaN "
          "injection) and checked directly: result with NaN-masked cases = result with the cases physically deleted, and the "
-         "pointwise output is NaN exactly where an input is NaN.",
+         "pointwise output is NaN exactly where an input is NaN. Cases without any ensemble member / with a NaN in a "
+         "zero-weight risk-matrix category are additionally checked against the exact Lean Spec value per case, the exact mean "
+         "over the present cases, and the run with those cases deleted.",
     note="Per-score kernels' NaN paths (ensemble member dropping, CDF propagation, Murphy/FIRM masks) are proved in their own "
          "property files (C06, C07/C17, C11, C12, C13) and only compared here. FSS excluded by the property text. Library "
          "reductions are modelled, not verified.",
@@ -219,6 +225,394 @@ def pointwise_nan(ctx, ncases):
                          expected="NaN exactly where an input of the case is NaN", tags=tags, theorem="add_nan_iff")
 
 
+
+# ----------------------------------------------------------------------------- missing WHOLE forecast of a case
+# (a) ensembles: every member NaN while the observation is valid (and the reverse); (b) risk matrix: a NaN in a severity
+# category / probability row that carries no decision weight.  Expected values: Lean Spec on the exact input VALUES
+# (C13 ensemble Brier spec, C06 CRPS integral spec, C12 risk-matrix double sum), reductions in exact rationals.
+from fractions import Fraction  # noqa: E402
+
+NAN = float("nan")
+ENS_SPEC = {   # registry entry -> (key of c06.spec, a, b, output variable carrying the score)
+    "crps_for_ensemble": ("ecdf", None, None, "value"),
+    "crps_for_ensemble_components": ("ecdf", None, None, "total"),
+    "crps_for_ensemble_fair": ("fair", None, None, "value"),
+    "tw_crps_for_ensemble": ("tw", 0.5, None, "value"),          # chaining max(x, 0.5) = upper tail from 0.5
+    "tail_tw_crps_for_ensemble": ("tw", 0.5, None, "value"),
+    "interval_tw_crps_for_ensemble": ("tw", -1.0, 2.0, "value"),
+}
+ENS_FUNCS = ["brier_score_for_ensemble"] + list(ENS_SPEC)
+PATTERNS = ["valid", "all-members-nan", "obs-nan", "some-members-nan", "one-valid-member", "both-nan"]
+
+
+def unfl(x):
+    """inverse of core.canon for numbers / nested lists (replay payloads store NaN as 'nan')"""
+    if isinstance(x, list):
+        return [unfl(v) for v in x]
+    if isinstance(x, str):
+        return float(core.parse_fl(x))
+    return x
+
+
+def fnanmean(vals):
+    v = [x for x in vals if not core.is_nan(x)]
+    return sum(v, Fraction(0)) / len(v) if v else NAN
+
+
+def fmul(v, w):
+    if core.is_nan(v) or (isinstance(w, float) and math.isnan(w)):
+        return NAN
+    return v * Fraction(w)
+
+
+def gen_ens(rng, fn):
+    n = rng.choice([2, 3, 4, 5, 6])
+    m = rng.choice([1, 2, 3, 3, 4])
+    pats = [rng.choice(PATTERNS) for _ in range(n)]
+    # the class under test: at least one case without any member but with an observation; usually also the reverse
+    pats[rng.randrange(n)] = "all-members-nan"
+    if n > 2 and rng.random() < 0.7:
+        free = [i for i in range(n) if pats[i] != "all-members-nan"] or [0]
+        pats[rng.choice(free)] = "obs-nan"
+    if rng.random() < 0.85:
+        free = [i for i in range(n) if pats[i] not in ("all-members-nan",)] or [0]
+        if len([p for p in pats if p == "all-members-nan"]) < n:
+            pats[rng.choice(free)] = "valid"
+    fcst, obs = [], []
+    for p in pats:
+        o = R.draw(rng, "real")
+        if fn == "brier_score_for_ensemble" and rng.random() < 0.5:
+            o = rng.choice([-1.0, 0.0, 0.5, 1.0, 2.0])          # around the event thresholds: events and non-events
+        ms = [R.draw(rng, "real", o) for _ in range(m)]
+        if p in ("all-members-nan", "both-nan"):
+            ms = [NAN] * m
+        elif p == "some-members-nan" and m > 1:
+            for j in rng.sample(range(m), rng.randint(1, m - 1)):
+                ms[j] = NAN
+        elif p == "one-valid-member" and m > 1:
+            keep = rng.randrange(m)
+            ms = [x if j == keep else NAN for j, x in enumerate(ms)]
+        if p in ("obs-nan", "both-nan"):
+            o = NAN
+        fcst.append(ms)
+        obs.append(o)
+    w = None
+    if rng.random() < 0.4:
+        w = [R.draw(rng, "pos") for _ in range(n)]
+        if rng.random() < 0.3:
+            w[rng.randrange(n)] = NAN
+    c = {"function": fn, "fcst": fcst, "obs": obs, "weights": w, "patterns": pats, "member_first": rng.random() < 0.4,
+         "obs_reversed": rng.random() < 0.3}
+    if fn == "brier_score_for_ensemble":
+        c["thr"] = sorted(set(rng.choice([-1.0, 0.0, 0.5, 1.0, 2.0]) for _ in range(rng.choice([1, 2, 2, 3]))))
+        c["fair"] = rng.choice([True, False, "omit"])
+    return c
+
+
+def ens_spec_ops(c):
+    """(driver, ops) giving the exact per-case scores of c"""
+    fl = core.fl_str
+    if c["function"] == "brier_score_for_ensemble":
+        return "C13S", [{"op": "c13.ensspec", "args": {
+            "fcst": [[fl(x) for x in r] for r in c["fcst"]], "obs": [fl(x) for x in c["obs"]],
+            "thresholds": [fl(t) for t in c["thr"]], "op": "ge", "fair": c["fair"] is not False, "weights": None}}]
+    key, a, b, var = ENS_SPEC[c["function"]]
+    ops = []
+    for ms, o in zip(c["fcst"], c["obs"]):
+        args = {"xs": [fl(x) for x in ms], "y": fl(o)}
+        if a is not None:
+            args["a"] = fl(a)
+        if b is not None:
+            args["b"] = fl(b)
+        ops.append({"op": "c06.spec", "args": args})
+    return "C06", ops
+
+
+def ens_expected(c, res):
+    """exact per-case scores [case][threshold-or-single] (before weighting) from the driver results"""
+    if c["function"] == "brier_score_for_ensemble":
+        return [[core.parse_fl(x) for x in row] for row in res[0]["cases"]]
+    key = ENS_SPEC[c["function"]][0]
+    return [[core.parse_fl(r[key]) if key in r else NAN] for r in res]
+
+
+def ens_arrays(c, keep=None):
+    n, m = len(c["fcst"]), len(c["fcst"][0])
+    idx = list(range(n)) if keep is None else list(keep)
+    cases = [10 + i for i in idx]
+    f = xr.DataArray(np.array([c["fcst"][i] for i in idx], dtype=float).reshape(len(idx), m), dims=[R.fresh(K), R.fresh("member")],
+                     coords={K: cases, "member": list(range(m))})
+    if c["member_first"]:
+        f = f.transpose("member", K)
+    o = xr.DataArray(np.array([c["obs"][i] for i in idx], dtype=float), dims=[R.fresh(K)], coords={K: cases})
+    if c.get("obs_reversed"):
+        o = o.isel({K: slice(None, None, -1)})       # stored in another order: alignment is by label
+    w = None
+    if c["weights"] is not None:
+        w = xr.DataArray(np.array([c["weights"][i] for i in idx], dtype=float), dims=[R.fresh(K)], coords={K: cases})
+    return f, o, w
+
+
+def ens_call(c, req, keep=None):
+    """{var: DataArray} of the real function on c (cases `keep` only)"""
+    import warnings
+    f, o, w = ens_arrays(c, keep)
+    kw = dict(req)
+    if w is not None:
+        kw["weights"] = w
+    with warnings.catch_warnings(), np.errstate(all="ignore"):
+        warnings.simplefilter("ignore")
+        if c["function"] == "brier_score_for_ensemble":
+            from scores.probability import brier_score_for_ensemble
+            if c["fair"] != "omit":
+                kw["fair_correction"] = c["fair"]
+            r = brier_score_for_ensemble(f, o, R.fresh("member"), list(c["thr"]), **kw)
+            return {"value": r}
+        e = R.BY_NAME[c["function"]]
+        case = R.Case(arrays={"fcst": f, "obs": o}, weights=None, sizes={}, fcst_dims=[K], obs_dims=[K], weights_dims=[K],
+                      specific=["member"])
+        out = e.outputs(e.call(case, kw, use_weights=False))
+        if set(out) == {"value"} and "component" in [str(d) for d in out["value"].dims]:
+            r = out["value"]       # include_components: one labelled array; the statements hold for every component
+            out = {str(lab): r.sel(component=lab, drop=True) for lab in r["component"].values}
+        return out
+
+
+def per_case_matrix(da, n):
+    """[case][threshold-or-single] floats of a preserve-all output, case labels 10.., thresholds increasing"""
+    dims = [str(d) for d in da.dims]
+    other = [d for d in dims if d != K]
+    if K not in dims or len(other) > 1 or da.sizes[K] != n:
+        return None
+    da = da.sortby(K)
+    if other:
+        da = da.sortby(other[0]).transpose(K, other[0])
+        return [[float(x) for x in row] for row in np.asarray(da.values, dtype=float)]
+    return [[float(x)] for x in np.asarray(da.values, dtype=float)]
+
+
+def vec(da):
+    return [float(x) for x in np.asarray(da.sortby(da.dims[0]).values if da.dims else da.values, dtype=float).ravel()]
+
+
+def check_missing_case(ctx, batch, site, c, exact, call, main_var, tags, theorem):
+    """exact: [case][k] exact unweighted per-case scores (NaN = the case is missing).  Statements:
+    (1) the preserve_dims='all' output is NaN exactly at the missing cases and has the exact value elsewhere;
+    (2) the aggregate over all cases = exact mean over the present cases = the aggregate after deleting the missing cases."""
+    n = len(exact)
+    w = c.get("weights")
+    exp = [[fmul(v, w[i]) if w is not None else v for v in row] for i, row in enumerate(exact)]
+    missing = [i for i in range(n) if all(core.is_nan(v) for v in exp[i])]
+    nfail = len(ctx.failures)
+    try:
+        out = call(c, {"preserve_dims": "all"})
+    except Exception as ex:  # noqa: BLE001
+        ctx.fail(batch, "property", site, "exception:" + core.exc_class(ex), c, observed=str(ex)[:200], expected="a result", tags=tags)
+        return True
+    for var, da in out.items():
+        got = per_case_matrix(da, n)
+        if got is None or any(len(g) != len(e) for g, e in zip(got, exp)):
+            ctx.fail(batch, "property", site, "shape", c, observed={"var": var, "dims": [str(d) for d in da.dims]},
+                     expected="one value per case (and threshold)", tags=tags)
+            continue
+        gm = [[math.isnan(x) for x in row] for row in got]
+        em = [[core.is_nan(x) for x in row] for row in exp]
+        if gm != em:
+            ctx.fail(batch, "property", site, "nan-mask-differs", c, observed={"var": var, "values": got, "nan_at": gm},
+                     expected={"nan_at": em, "values": exp}, tags=dict(tags, var=var), theorem="add_nan_iff")
+        elif var == main_var and not all(core.close(x, y) for g, e in zip(got, exp) for x, y in zip(g, e)):
+            ctx.fail(batch, "property", site, "case-value", c, observed={"var": var, "values": got}, expected=exp,
+                     tags=dict(tags, var=var), theorem=theorem)
+    # aggregate
+    try:
+        agg = call(c, {})
+    except Exception as ex:  # noqa: BLE001
+        ctx.fail(batch, "property", site, "exception:" + core.exc_class(ex), c, observed=str(ex)[:200], expected="a result", tags=tags)
+        return True
+    nk = len(exp[0])
+    emean = [fnanmean([exp[i][k] for i in range(n)]) for k in range(nk)]
+    g = vec(agg[main_var])
+    if len(g) != nk or not all(core.close(x, y) for x, y in zip(g, emean)):
+        ctx.fail(batch, "property", site, "aggregate-value", c, observed=g, expected=emean, tags=tags,
+                 theorem="nanmean_mask_eq_delete")
+    keep = [i for i in range(n) if i not in missing]
+    if keep and missing:
+        try:
+            dele = call(c, {}, keep)
+        except Exception as ex:  # noqa: BLE001
+            ctx.fail(batch, "property", site, "exception-only-one-side", c, observed="masked: a result",
+                     expected="deleted: " + str(ex)[:150], tags=tags)
+            return True
+        for var in agg:
+            a, b = vec(agg[var]), vec(dele[var]) if var in dele else None
+            if b is None or len(a) != len(b) or not all(core.close_ff(x, y) for x, y in zip(a, b)):
+                ctx.fail(batch, "property", site, "masked-differs-from-deleted", c, observed={"var": var, "masked": a},
+                         expected={"deleted": b, "deleted_cases": missing}, tags=dict(tags, var=var),
+                         theorem="nanmean_mask_eq_delete")
+    return len(ctx.failures) > nfail
+
+
+def eval_ens(ctx, c, res):
+    exact = ens_expected(c, res)
+    main = "value" if c["function"] == "brier_score_for_ensemble" else ENS_SPEC[c["function"]][3]
+    tags = {"function": c["function"], "class": "no-member-or-no-observation"}
+    return check_missing_case(ctx, "ensemble-missing-case", c["function"], c, exact, ens_call, main, tags,
+                              "nanmean_mask_eq_delete")
+
+
+def ensemble_missing_case(ctx, ncases):
+    rng = ctx.rng
+    cs = [gen_ens(rng, fn) for fn in ENS_FUNCS for _ in range(ncases)]
+    by = {}
+    for i, c in enumerate(cs):
+        drv, ops = ens_spec_ops(c)
+        by.setdefault(drv, []).append((i, ops))
+    res = {}
+    for drv, items in by.items():
+        flat = [o for _, ops in items for o in ops]
+        out = core.run_driver(drv, flat)
+        p = 0
+        for i, ops in items:
+            res[i] = out[p:p + len(ops)]
+            p += len(ops)
+    for i, c in enumerate(cs):
+        ctx.case("ensemble-missing-case", c, nontrivial=any(p not in ("all-members-nan", "obs-nan", "both-nan") for p in c["patterns"]))
+        for p in set(c["patterns"]):
+            ctx.tag("ens:" + p)
+        ctx.tag("ens:weights" if c["weights"] is not None else "ens:no-weights")
+        eval_ens(ctx, c, res[i])
+
+
+# ---- risk matrix: decision points without weight
+RM_PROBS = [0.125, 0.25, 0.375, 0.5, 0.625, 0.75, 0.875]
+
+
+def gen_scaling(rng, nprob, nsev):
+    """a legal warning scaling matrix ((nprob+1) x (nsev+1): first column / last row 0, non-decreasing to the right and
+    upwards) whose two highest severity columns are identical (the service does not distinguish them)"""
+    S = [[0] * (nsev + 1) for _ in range(nprob + 1)]
+    for i in range(nprob - 1, -1, -1):
+        for j in range(1, nsev + 1):
+            S[i][j] = max(S[i + 1][j], S[i][j - 1]) + rng.choice([0, 1])
+    if S[0][nsev] == 0:
+        S[0] = [0] + [1] * nsev              # at least one warning level
+    for i in range(nprob + 1):
+        S[i][nsev] = S[i][nsev - 1]
+    return S
+
+
+def gen_rm(rng):
+    from scores.emerging import weights_from_warning_scaling
+    nsev = rng.choice([2, 3, 3, 4])
+    nprob = rng.choice([1, 2, 3])
+    probs = sorted(rng.sample(RM_PROBS, nprob))
+    sev = ["s%d" % j for j in range(nsev)]
+    built = None
+    if rng.random() < 0.4:
+        S = gen_scaling(rng, nprob, nsev)
+        q = max(max(r) for r in S)
+        aw = [float(rng.choice([1, 2, 3, 0.5])) for _ in range(max(q, 1))]
+        da = weights_from_warning_scaling(np.array(S, dtype=int), aw, "sev", sev, "prob", probs)
+        W = [[float(da.sel(prob=p, sev=s)) for s in sev] for p in probs]     # the VALUES handed to the score
+        built = {"S": S, "assessment_weights": aw}
+    else:
+        W = [[float(rng.choice([0, 0.5, 1, 2, 3])) for _ in sev] for _ in probs]
+        for j in rng.sample(range(nsev), rng.choice([1, 1, 2]) if nsev > 2 else 1):
+            for row in W:
+                row[j] = 0.0                     # a severity category without any weight
+        if nprob > 1 and rng.random() < 0.4:
+            W[rng.randrange(nprob)] = [0.0] * nsev    # a probability threshold without any weight
+    zero_cols = [j for j in range(nsev) if all(row[j] == 0 for row in W)]
+    n = rng.choice([2, 3, 4, 5])
+    fcst, obs, pats = [], [], []
+    for k in range(n):
+        f = [R.draw(rng, "prob", rng.choice(probs)) for _ in sev]
+        o = [R.draw(rng, "binary") for _ in sev]
+        p = rng.choice(["valid", "nan-zero-weight-fcst", "nan-zero-weight-obs", "nan-weighted", "valid"])
+        if k == 0:
+            p = rng.choice(["nan-zero-weight-fcst", "nan-zero-weight-obs"])
+        if k == 1:
+            p = "valid"
+        if p.startswith("nan-zero-weight") and zero_cols:
+            j = rng.choice(zero_cols)
+            (f if p.endswith("fcst") else o)[j] = NAN
+        elif p == "nan-weighted" or p.startswith("nan-zero-weight"):
+            p = "nan-weighted"
+            (f if rng.random() < 0.5 else o)[rng.randrange(nsev)] = NAN
+        fcst.append(f)
+        obs.append(o)
+        pats.append(p)
+    w = None
+    if rng.random() < 0.3:
+        w = [R.draw(rng, "pos") for _ in range(n)]
+    return {"function": "risk_matrix_score", "sev": sev, "probs": probs, "W": W, "fcst": fcst, "obs": obs, "weights": w,
+            "mode": rng.choice(["lower", "upper"]), "patterns": pats, "built": built, "zero_columns": zero_cols,
+            "w_transposed": rng.random() < 0.3}
+
+
+def rm_spec_op(c):
+    fl = core.fl_str
+    return {"op": "c12.rm", "args": {"mode": c["mode"], "W": [[fl(p), [fl(x) for x in row]] for p, row in zip(c["probs"], c["W"])],
+                                     "cases": [[[fl(f), fl(o)] for f, o in zip(rf, ro)] for rf, ro in zip(c["fcst"], c["obs"])]}}
+
+
+def rm_call(c, req, keep=None):
+    import warnings
+    from scores.emerging import risk_matrix_score
+    n = len(c["fcst"])
+    idx = list(range(n)) if keep is None else list(keep)
+    cases = [10 + i for i in idx]
+    ns = len(c["sev"])
+    f = xr.DataArray(np.array([c["fcst"][i] for i in idx], dtype=float).reshape(len(idx), ns), dims=[R.fresh(K), R.fresh("sev")],
+                     coords={K: cases, "sev": list(c["sev"])})
+    o = xr.DataArray(np.array([c["obs"][i] for i in idx], dtype=float).reshape(len(idx), ns), dims=[R.fresh(K), R.fresh("sev")],
+                     coords={K: cases, "sev": list(c["sev"])})
+    W = xr.DataArray(np.array(c["W"], dtype=float).reshape(len(c["probs"]), ns), dims=["prob", "sev"],
+                     coords={"prob": list(c["probs"]), "sev": list(c["sev"])})
+    if c.get("w_transposed"):
+        W = W.transpose("sev", "prob")
+    kw = dict(req)
+    if c["weights"] is not None:
+        kw["weights"] = xr.DataArray(np.array([c["weights"][i] for i in idx], dtype=float), dims=[R.fresh(K)], coords={K: cases})
+    with warnings.catch_warnings(), np.errstate(all="ignore"):
+        warnings.simplefilter("ignore")
+        r = risk_matrix_score(f, o, W, R.fresh("sev"), R.fresh("prob"), threshold_assignment=R.fresh(c["mode"]), **kw)
+    return {"value": r}
+
+
+def eval_rm(ctx, c, res):
+    exact = [[core.parse_fl(x)] for x in res["spec"]]
+    tags = {"function": "risk_matrix_score", "class": "nan-in-zero-weight-category", "built": c.get("built") is not None}
+    return check_missing_case(ctx, "risk-matrix-zero-weight", "risk_matrix_score", c, exact, rm_call, "value", tags,
+                              "nanmean_mask_eq_delete")
+
+
+def risk_matrix_zero_weight(ctx, ncases):
+    rng = ctx.rng
+    cs = [gen_rm(rng) for _ in range(ncases)]
+    res = core.run_driver("C12", [rm_spec_op(c) for c in cs])
+    for c, r in zip(cs, res):
+        ctx.case("risk-matrix-zero-weight", c, nontrivial="valid" in c["patterns"])
+        for p in set(c["patterns"]):
+            ctx.tag("rm:" + p)
+        ctx.tag("rm:built-from-scaling" if c["built"] else "rm:hand-weights")
+        ctx.tag("rm:zero-column" if c["zero_columns"] else "rm:no-zero-column")
+        eval_rm(ctx, c, r)
+
+
+def replay_concrete(payload):
+    """re-evaluate exactly the recorded input of the two batches above"""
+    c = dict(payload["case"])
+    for k in ("fcst", "obs", "weights", "thr", "probs", "W"):
+        if c.get(k) is not None:
+            c[k] = unfl(c[k])
+    sub = core.Ctx("C02", "quick", payload.get("seed", 0))
+    if payload["batch"] == "ensemble-missing-case":
+        drv, ops = ens_spec_ops(c)
+        return eval_ens(sub, c, core.run_driver(drv, ops))
+    return eval_rm(sub, c, core.run_driver("C12", [rm_spec_op(c)])[0])
+
+
 def correspondence(ctx):
     # reduction model: impl aggregate = Lean nan-mean of the impl's own pointwise output, NaN-heavy inputs
     sub = core.Ctx("C02", ctx.tier, ctx.seed)
@@ -255,9 +649,13 @@ def oracle(ctx, boost):
     k = 3 if boost else 1
     mask_vs_delete(ctx, ctx.n(4, 30) * k)
     pointwise_nan(ctx, ctx.n(2, 12) * k)
+    ensemble_missing_case(ctx, ctx.n(6, 40) * k)
+    risk_matrix_zero_weight(ctx, ctx.n(30, 200) * k)
 
 
 def replay(ctx, payload):
+    if payload.get("batch") in ("ensemble-missing-case", "risk-matrix-zero-weight"):
+        return replay_concrete(payload)
     c = core.Ctx("C02", "quick", payload.get("seed", 0))
     site = payload.get("site")
     keep = [e for e in R.REGISTRY if e.name == site]
